@@ -384,6 +384,9 @@ func main() {
 					delete(cur, string(k))
 				} else {
 					v := r.Bytes(1 + r.Intn(5))
+					if r.Chance(20) {
+						v = []byte{} // a key-only entry (the state machine stores committee / delegate membership this way)
+					}
 					_ = s.Set(k, v)
 					cur[string(k)] = v
 				}
